@@ -565,11 +565,12 @@ func RunStreamCapture(em *Emitter, tr int, st *Stream, capt *Capture) {
 		dead    bool
 		refused bool
 		gapped  map[string]bool // sub-streams of a batch this consumer refused: its readers missed (part of) that batch
+		sticky  map[string]bool // sub-streams whose reader raised the memory-limit error: that error is sticky
 	}
 	var ladders []*ladder
 	for _, l := range st.Limits {
 		r := &inuseRec{}
-		ladders = append(ladders, &ladder{limit: l, rec: r, gapped: map[string]bool{},
+		ladders = append(ladders, &ladder{limit: l, rec: r, gapped: map[string]bool{}, sticky: map[string]bool{},
 			c: arrow_record.NewConsumer(arrow_record.WithMemoryLimit(l), arrow_record.WithMeterProvider(recProvider{r: r}))})
 	}
 	type emittedPayload struct {
@@ -717,6 +718,9 @@ func RunStreamCapture(em *Emitter, tr int, st *Stream, capt *Capture) {
 			before := consumerStates(ld.c)
 			for _, pl := range bar.ArrowPayloads {
 				if HaveProjection && before[pl.SchemaId] == "err" {
+					if ld.sticky[pl.SchemaId] {
+						state = 3 // stopped by a reader that refused for memory: it must keep refusing recognisably
+					}
 					break
 				}
 				if ld.gapped[pl.SchemaId] {
@@ -758,6 +762,9 @@ func RunStreamCapture(em *Emitter, tr int, st *Stream, capt *Capture) {
 					if !HaveProjection || (failed >= 0 && i > failed) {
 						ld.gapped[pl.SchemaId] = true
 					}
+				}
+				if failed >= 0 && isLimit && after[bar.ArrowPayloads[failed].SchemaId] == "err" {
+					ld.sticky[bar.ArrowPayloads[failed].SchemaId] = true
 				}
 			}
 		}
